@@ -280,6 +280,8 @@ class ExprMixin:
         v = self.ev(n.operand, st)
         if isinstance(n.op, ast.Not):
             return SV(T.Bool, z3.Not(self.truthy(v, st)))
+        if self.is_opaque(v):
+            return self.opaque_result(v.t.cls, st)
         if isinstance(n.op, ast.USub):
             if isinstance(v.t, T._Bool):
                 v = coerce(v, T.Int)
@@ -374,7 +376,25 @@ class ExprMixin:
             return SV(v.t.t, v.t.val(v.z))
         return v
 
+    def is_opaque(self, v):
+        """A reference typed with a universal class (an arbitrary Python object): operators on it are uninterpreted."""
+        t = v.t
+        if isinstance(t, T.Ref) and t.cls != '$any':
+            d = self.eng.prop.classes.get(t.cls)
+            return d is not None and d.universal
+        return False
+
+    def opaque_result(self, cls, st):
+        r = z3.Int(fresh_name('opq'))
+        st.assume(r >= 0)
+        st.assume(r <= st.h(('alloc',)) + 0) if False else None
+        return SV(T.Ref(cls, True), r)
+
     def binop(self, op, a, b, st, n=None):
+        if self.is_opaque(a) or self.is_opaque(b):
+            # arithmetic / concatenation on arbitrary objects (tokens, numbers, dimensions): an unconstrained result
+            cls = a.t.cls if self.is_opaque(a) else b.t.cls
+            return self.opaque_result(cls, st)
         a, b = self.unwrap_opt(a, st), self.unwrap_opt(b, st)
         ta, tb = a.t, b.t
         num = (T._Int, T._Real, T._Bool)
@@ -486,6 +506,9 @@ class ExprMixin:
             return SV(T.Str, z3.If(v.t.is_none(v.z), z3.StringVal('None'), v.t.val(v.z)))
         if isinstance(v.t, T._Int):
             return self.call_spec_or_uf('int_to_str', [v], st)
+        if v.t.reflike:
+            f = self.uf('obj_str', [T.Ref('$any')], T.Str)      # str(obj): uninterpreted
+            return SV(T.Str, f(v.z))
         raise Unsupported('str() of %s' % v.t)
 
     def type_test(self, n, st):
@@ -548,6 +571,8 @@ class ExprMixin:
         if isinstance(op, ast.IsNot):
             return z3.Not(self.identical(a, b))
         if isinstance(op, (ast.In, ast.NotIn)):
+            if self.is_opaque(a) and isinstance(b.t, (T._Str, T.Seq)) and getattr(self.eng.prop, 'hook_in', None) is None:
+                return z3.Bool(fresh_name('opq_in'))       # membership of an arbitrary object: unconstrained
             r = self.contains(b, a, st)
             return r if isinstance(op, ast.In) else z3.Not(r)
         num = (T._Int, T._Real, T._Bool)
@@ -569,6 +594,8 @@ class ExprMixin:
             h = self.cmp_hook(op, a, b, st)
             if h is not None:
                 return h
+            if self.is_opaque(a) or self.is_opaque(b):
+                return z3.Bool(fresh_name('opq_cmp'))
             raise Unsupported('comparison %s on %s, %s (line %s)' % (type(op).__name__, a.t, b.t, getattr(n, 'lineno', '?')))
         if isinstance(op, ast.Lt):
             return x < y
